@@ -1,15 +1,9 @@
-(* Instantiation of the solver models with the constants regenerated from /repo; entry points of the C06 driver. *)
+(* Instantiation of the DFPN model with the constants regenerated from /repo (the PN entry point is PnRun.pn_run). *)
 From Coq Require Import NArith ZArith List Bool.
 Require Import Board Move GameOver Pn Dfpn.
 Require Import Generated.Consts.
 Import ListNotations.
 Open Scope N_scope.
-
-(* prove.New(Config{MaxNodes, PreserveSolved, MaxDepth}).Prove(p): the attacker is the side to move.
-   MaxDepth = 0 is replaced by math.MaxInt16 as in Prove(). *)
-Definition pn_run (iters dfuel : nat) (maxnodes : N) (preserve : bool) (maxdepth : Z) (p : position) : pn * pstats * N * rmove * N :=
-  let md := if (maxdepth =? 0)%Z then 32767%Z else maxdepth in
-  prove_pn gen_basis {| pc_maxnodes := maxnodes; pc_preserve := preserve; pc_maxdepth := md |} (to_move_white p) iters dfuel p.
 
 (* prove.NewDFPN(&DFPNConfig{Attacker, TableMem = 32*entries}).Prove(p); attacker: 0 NoColor (side to move), 1 White, 2 Black *)
 Definition dfpn_run (lfuel dfuel : nat) (attacker : N) (entries : nat) (p : position) : dstate * dentry * N * N :=
